@@ -253,6 +253,8 @@ class Body:
 
     def _reads_mutable(self, s):
         for x in subterms(s):
+            if x[0] == "call" and x[1] and x[1].startswith("std::cell::"):
+                return True       # read through a RefCell / Cell: interior mutability
             if x[0] == "deref":
                 r = x[1]
                 while r[0] in ("field", "deref", "ref", "index", "downcast"):
